@@ -584,7 +584,8 @@ def my_isnumeric(value: str):
         float(value)
     except ValueError:
         return False
-    return True
+    # float() also takes 'nan', 'inf' and 'infinity' (with sign, in any case), which are atom names and no numbers:
+    return value.lstrip('+-').lower() not in ('nan', 'inf', 'infinity')
 
 
 def mean(values):
